@@ -56,6 +56,13 @@ def build_lemmas(ex):
             nol[bi] = str(e)
         except sx.Unsupported as e:
             nol[bi] = f"outside the serialiser's vocabulary: {e}"
+    # a function documented to return the rounded-up integer does so on every path: a path that returns an integer
+    # constant (e.g. `max(1, ceiling(x))`) is judged numerically against ceil(solution) of the sibling path as well
+    ceil_specs = [s for s in specs if s.exception == "ceiling"]
+    if ceil_specs:
+        for s in specs:
+            if not s.exception and s.kind in ("simple", "structured") and sympy.sympify(s.F).is_Integer:
+                s.exception, s.F = "ceiling", ceil_specs[0].F
     return specs, nol
 
 
@@ -85,6 +92,8 @@ def describe_call(kwargs):
             return {"vector": [d(c) for c in v.components]}
         if isinstance(v, (list, tuple)):
             return [d(x) for x in v]
+        if isinstance(v, sympy.Basic) and v.free_symbols and not hasattr(v, "scale_factor"):
+            return {"expression": str(v)}
         if isinstance(v, sympy.Basic):
             return {"si": repr(N.si_float(v)), "dimension": str(getattr(v, "dimension", ""))}
         return {"number": repr(v)}
@@ -306,6 +315,9 @@ def work(idx):
                 sp += S.inverse_numeric(item.module, rng_s)
             if S.has_sequence_arg(ex):
                 sp += S.long_sequence_stream(item, build_lemmas, rng_s, pick_branch, cfg["seq_lengths"])
+            sp += S.aliasing_stream(item, ex, specs, plan, rng_s, pick_branch, cfg["order_pairs"] + 1)
+            sp += S.ordering_stream(item, ex, specs, plan, rng_s, pick_branch, cfg["order_pairs"])
+            sp += S.target_value_stream(item, ex, specs, plan, rng_s, pick_branch)
         except SpecialTimeout:
             sp.append({"stream": "special", "status": "skipped", "why": "time budget (90 s) of the special tuples exhausted"})
         except Exception as e:  # pylint: disable=broad-except
@@ -393,7 +405,7 @@ def run(ctx):
     t0 = time.time()
     items, nmods, import_errors = X.catalogue()
     _ITEMS = items
-    _CFG = {"seed": ctx.seed, "tuples": ctx.pick(3, 20), "seq_lengths": S.SEQ_LENGTHS}
+    _CFG = {"seed": ctx.seed, "tuples": ctx.pick(3, 20), "seq_lengths": S.SEQ_LENGTHS, "order_pairs": ctx.pick(1, 3)}
     ctx.log(f"catalogue: {len(items)} calculate_* functions in {nmods} modules ({time.time() - t0:.1f}s)")
 
     n_corpus = run_corpus(ctx, items)
@@ -528,12 +540,17 @@ def run(ctx):
                 "real_outcome": c.get("real"), "error": c.get("error"), "closed_form_value": c.get("closed_form_value"),
                 "law_value": c.get("law_value"), "residual": c.get("residual"), "comparison": c.get("comparison"),
                 "position": c.get("position"), "vec_len": c.get("lengths"), "seq_len": c.get("length"), "pair": c.get("pair"),
+                "aliased": c.get("aliased"), "case": c.get("case"), "raw_solution": c.get("raw_solution"),
                 "why": c.get("why"), "theorem_or_tie": f"{stream} tuple (exact arguments) of the numeric tie"}
             what = {"boundary": f"{r['key']} disagrees with its law / closed form on the boundary of `{c.get('comparison')}` "
                         f"({c.get('position')}; equal SI values written in different units)",
                     "mixed-length": f"{r['key']} disagrees with its law function for vector arguments of lengths {c.get('lengths')}",
                     "inverse-mixed-length": f"law functions {c.get('pair')} of {r['key'].rsplit('.', 1)[0]} are not mutual inverses on vectors of different lengths",
-                    "long-sequence": f"{r['key']} disagrees with its law for a sequence of {c.get('length')} elements"}.get(stream,
+                    "long-sequence": f"{r['key']} disagrees with its law for a sequence of {c.get('length')} elements",
+                    "aliasing": f"{r['key']} disagrees with its law when the SAME object is passed for the {c.get('aliased')}",
+                    "ordering": f"{r['key']} disagrees with its law for {c.get('case')}",
+                    "target-value": f"{r['key']} disagrees with its law where the raw solution is {c.get('raw_solution')} "
+                        f"(argument {c.get('solved_for')} solved for it)"}.get(stream,
                         f"special tuple stream failed for {r['key']}: {c.get('why')}")
             vkey = f"C02:{r['key']}:law-residual" if c.get("status") == "law-fail" else f"C02:{r['key']}:{stream}"
             ctx.violation(vkey, what, rep, found_input=c.get("status") == "law-fail")
@@ -633,6 +650,8 @@ def evaluate_input(item, ex, specs, env_in, vec_len=None):
         if isinstance(v, (list, tuple)):
             t = [mk(x, arg) for x in v]
             return tuple(t) if isinstance(v, tuple) else t
+        if isinstance(v, sympy.Pow) and v.base in plan:      # expression-valued parameter  b ** unknown
+            return sympy.sympify(mk(v.base, arg)) ** v.exp
         val = env_in[str(v)]
         if isinstance(val, str):
             val = sympy.sympify(val)
